@@ -271,7 +271,7 @@ fn coq_obs(state: &Engine) -> String {
         .map(|a| match &a.balance {
             Some(b) => format!(
                 "(Some (OBal {} {} {}))",
-                zz(b.time.timestamp_millis() as i128),
+                zz(nanos(&b.time) as i128),
                 dz(b.value.total),
                 dz(b.value.free)
             ),
@@ -285,13 +285,13 @@ fn coq_obs(state: &Engine) -> String {
         .map(|i| {
             format!(
                 "IO {} {} {} {} {}",
-                zz(i.data.l1.last_update_time.timestamp_millis() as i128),
+                zz(nanos(&i.data.l1.last_update_time) as i128),
                 coq_lvl_obs(&i.data.l1.best_bid),
                 coq_lvl_obs(&i.data.l1.best_ask),
                 match &i.data.last_traded_price {
                     Some(p) => format!(
                         "(Some (OTr {} {}))",
-                        zz(p.time.timestamp_millis() as i128),
+                        zz(nanos(&p.time) as i128),
                         dz(p.value)
                     ),
                     None => "None".into(),
@@ -321,7 +321,7 @@ fn bal_time(state: &Engine, a: usize) -> Option<i64> {
         .asset_index(&AssetIndex(a))
         .balance
         .as_ref()
-        .map(|b| b.time.timestamp_millis())
+        .map(|b| nanos(&b.time))
 }
 fn ev_tags(state: &Engine, x: &EvJ) -> Vec<String> {
     match x {
@@ -359,7 +359,7 @@ fn ev_tags(state: &Engine, x: &EvJ) -> Vec<String> {
                 .data
                 .last_traded_price
                 .as_ref()
-                .map(|p| p.time.timestamp_millis());
+                .map(|p| nanos(&p.time));
             vec![format!(
                 "trade.{}{}",
                 rel(cur, *t),
@@ -372,8 +372,8 @@ fn ev_tags(state: &Engine, x: &EvJ) -> Vec<String> {
                 .instrument_index(&InstrumentIndex(*i))
                 .data
                 .l1
-                .last_update_time
-                .timestamp_millis();
+                .last_update_time;
+            let cur = nanos(&cur);
             vec![format!(
                 "l1.{}{}",
                 rel(Some(cur), *t),
@@ -925,18 +925,22 @@ fn main() {
         "gen" => {
             let thorough = args.tier == "thorough";
             let mut r = Rng::new(args.seed);
-            for input in gen_table() {
-                emit9(&mut em, "table", &input);
-            }
-            for input in gen_cancel_table() {
-                emit9(&mut em, "table", &input);
+            for input in gen_table().into_iter().chain(gen_cancel_table()) {
+                for scale in TABLE_SCALES {
+                    emit9(&mut em, "table", &rescaled(&input, scale));
+                }
             }
             let (n_epi, epi_len) = if thorough { (2500, 30) } else { (140, 12) };
             for j in 0..n_epi {
                 let mut rr = r.fork();
                 let adv = j % 3 == 2;
                 let input = gen_episode(&mut rr, epi_len, adv);
-                emit9(&mut em, if adv { "adversarial" } else { "random" }, &input);
+                let scale = time_palette(&mut rr);
+                emit9(
+                    &mut em,
+                    if adv { "adversarial" } else { "random" },
+                    &rescaled(&input, scale),
+                );
             }
             // all permutations of message sets
             let sets: &[(usize, usize)] = if thorough {
@@ -949,9 +953,10 @@ fn main() {
                     let mut rr = r.fork();
                     let ninst = 2;
                     let set = gen_set(&mut rr, n, ninst);
+                    let scale = time_palette(&mut rr);
                     for p in permutations(set.len()) {
                         let xs: Vec<EvJ> = p.iter().map(|&i| set[i].clone()).collect();
-                        emit9(&mut em, "random", &Input9 { ninst, xs });
+                        emit9(&mut em, "random", &rescaled(&Input9 { ninst, xs }, scale));
                     }
                 }
             }
@@ -966,13 +971,15 @@ fn main() {
                 let xs: Vec<EvJ> = (0..len)
                     .map(|_| set[rr.below(set.len() as u64) as usize].clone())
                     .collect();
-                emit9(&mut em, "random", &Input9 { ninst, xs });
+                let scale = time_palette(&mut rr);
+                emit9(&mut em, "random", &rescaled(&Input9 { ninst, xs }, scale));
             }
             let (n_adv, max_len) = if thorough { (3000, 60) } else { (160, 20) };
             for _ in 0..n_adv {
                 let mut rr = r.fork();
                 let input = gen_adversarial(&mut rr, max_len);
-                emit9(&mut em, "adversarial", &input);
+                let scale = time_palette(&mut rr);
+                emit9(&mut em, "adversarial", &rescaled(&input, scale));
             }
         }
         "exec" => {
